@@ -369,7 +369,9 @@ def check_case(case, rec):
             var = Variable(lens, kind, apply_scaling=scaled, **kw2)
             var.update(v)
             rb = float(np.ravel(var.value)[0])
-            rec.check('frame+readback', abs(rb - v) <= 1e-12 * max(1.0, abs(v)) + (1e-13 if scaled else 0.0),
+            # a thickness is read back as a difference of vertex positions: its rounding scales with the positions
+            tol_rb = 1e-12 * max(1.0, abs(v), scale if kind == 'thickness' else 0.0) + (1e-13 if scaled else 0.0)
+            rec.check('frame+readback', abs(rb - v) <= tol_rb,
                       key=('frame+readback:set-thickness-object-infinite' if thick_obj_inf else None),
                       msg=f'Variable({kind}, scaled={scaled}).update({v}) reads back {rb}')
             k = kw['surface_number']
@@ -429,6 +431,13 @@ def check_case(case, rec):
             if solves:
                 rigid_from = min(s[1] for s in solves)
         elif name == 'image_solve':
+            ya0, ua0 = lens.paraxial.marginal_ray()
+            ya0, ua0 = np.ravel(ya0), np.ravel(ua0)
+            with np.errstate(all='ignore'):
+                off = ya0[-1] / ua0[-2]
+            if not np.isfinite(off) or abs(off) > 1e4 * scale:
+                rec.cls('image-solve-nearly-afocal-skipped')      # focus (almost) at infinity: not a valid request
+                continue
             lens.image_solve()
             rigid_from = nK - 1
         elif name == 'add_wavelength':
@@ -510,7 +519,8 @@ def check_solves(rec, lens, solves, scale, opname, nK, finite_obj=False, stop_id
         return
     epd = float(lens.aperture.value)
     if opname == 'image_solve':
-        tol = 1e-9 * max(1.0, epd, float(np.max(np.abs(ya))))
+        # the height is ya + u*dz: its rounding scales with the height before the solve and with |u * dz|
+        tol = 1e-9 * max(1.0, epd, float(np.max(np.abs(ya))), float(np.max(np.abs(ua))) * scale)
         rec.check('image-solve', abs(ya[-1]) <= tol, resid=abs(ya[-1]), tol=tol,
                   msg=f'after image_solve the marginal ray height at the image is {ya[-1]:.3e}')
         return
